@@ -320,9 +320,12 @@ theorem js_output_no_markup : type_of% @Verif.Proofs.C09JsEmbed.js_output_no_mar
 theorem js_script_embed_keeps : type_of% @Verif.Proofs.C09JsEmbed.js_script_embed_keeps :=
   @Verif.Proofs.C09JsEmbed.js_script_embed_keeps
 
-/-- **Embedded languages, composed**: an HTML `script` element whose payload is minified by the JS fragment printer is
-    read back by the HTML tokenizer as character tokens equal to the printer's output byte for byte, followed by the
-    element's end tag -/
+/-- **Embedded languages, composed** (strong form): for an HTML `script` element whose payload is minified by the JS
+    fragment printer the HTML model writes exactly the printer's output (the host's re-lex check `rawTextEndsAtEnd`
+    never falls back to the original payload, lemma `rawTextEndsAtEnd_noBad`: text without `</` and `<!--` ends at its
+    end), and the HTML tokenizer reads it back as character tokens equal to it byte for byte, followed by the element's
+    end tag.  Hypotheses: model state inside `script` (`dropEnd = false`, `textMode = 1`, `rawTag = "script"`), payload
+    token without end tag of `script` and without `<!--`; nothing is assumed about the parser function -/
 theorem html_script_with_js_fragment : type_of% @Verif.Proofs.C09JsEmbed.html_script_with_js_fragment :=
   @Verif.Proofs.C09JsEmbed.html_script_with_js_fragment
 
